@@ -58,6 +58,11 @@ def compose(ctx, g, total):
     dpaths = [d["p"] for d in rd("deletepaths.ndjson")]
     shapes = sorted(s["shape"] for s in rd("shapes.ndjson"))
     longs = sorted(x["n"] for x in rd("long.ndjson"))
+    sustained = sorted(rd("sustained.ndjson"), key=lambda d: json.dumps(d, sort_keys=True))
+    nitems = rd("numbereditems.ndjson")
+    if not sustained or not nitems:
+        raise vlib.Inconclusive("FileOps_Gen produced no sustained-batch shapes")
+    nindex = {(i["idx"], i["mode"]): i for i in nitems}
     if not (states and oitems and litems and dpaths and shapes and longs):
         raise vlib.Inconclusive("FileOps_Gen produced no cases")
     key = lambda d: json.dumps(d, sort_keys=True)
@@ -80,7 +85,7 @@ def compose(ctx, g, total):
         cases.append({"id": len(cases) + 1, "cred": len(cases) % 2 == 1, "fs": fs, "ops": ops})
 
     def item(p, mode, mk):
-        it = {"p": p, "mode": mode, "mk": mk}
+        it = {"p": p, "idx": 0, "mode": mode, "mk": mk}
         assert it in oitems
         return it
     # covering family: every kind at one path x every mode x MkdirAll, in the middle of a mixed batch
@@ -112,6 +117,20 @@ def compose(ctx, g, total):
         add(fs, [{"op": "open", "many": n, "items": [item("target", "r", False)]},
                  {"op": "open", "many": n, "items": [item("a", "rw", False)]},
                  {"op": "open", "items": batch()}])
+    # sustained large batches on one long-lived environment (one case = one container, `rounds` batches)
+    for sh in sustained:
+        if (sh["rounds"] > 100) == ctx.quick():
+            continue
+        fs = dict(rng.choice([s for s in states if s["sub"] == "absent"]))
+        fs["n"] = sh["files"]
+        ops = []
+        for _ in range(sh["rounds"]):
+            idx = rng.sample(range(1, sh["files"] + 1), sh["batch"])
+            items = [dict(nindex[(i, rng.choice(["r", "rw"]))]) for i in idx]
+            for pos in rng.sample(range(sh["batch"]), 4):          # a few failing items in between
+                items[pos] = dict(nindex[(sh["files"] + 1 + rng.randrange(20), "r")])
+            ops.append({"op": "open", "items": items})
+        add(fs, ops)
     cover = len(cases)
     while len(cases) < total:
         fs = dict(rng.choice(states))
@@ -120,6 +139,8 @@ def compose(ctx, g, total):
 
 
 def kind0(fs, p):
+    if p == "n":
+        return "numbered"
     return {"a": fs["a"], "b": fs["b"], "c": fs["c"] if fs["sub"] == "dir" else "noparent", "sub": fs["sub"]}.get(p, p)
 
 
@@ -206,6 +227,7 @@ def run(ctx):
                 nops += 1
             nfd += sum(1 for r in e.get("res", []) if r["fd"])
     ctx.traces = len(traces)
+    ctx.cov["sustained_rounds"] = sum(sum(1 for e in tr["ev"] if e["e"] == "open") for tr in traces if tr["fs"].get("n"))
     ctx.cov.update({"drift": drift, "operations": nops, "descriptors_checked": nfd,
                     "open_success_failure_patterns_seen": len(pats),
                     "patterns": sorted(pats)[:64]})
@@ -218,5 +240,5 @@ def run(ctx):
     ]
     return dict(evaluations=nops, distinct=len(traces),
                 rule="covering family (every planted kind x mode x MkdirAll inside a mixed batch, parent present/absent, empty and long batches) "
-                     "+ seeded sample of TLC-enumerated states x items x shapes",
+                     "+ sustained large batches (up to 253 distinct files, 100-300 rounds on one environment) + seeded sample of TLC-enumerated states x items x shapes",
                 exhaustive=False)
